@@ -633,3 +633,259 @@ Proof.
     cbn [apply_writes fold_left kv_step]. apply apply_writes_ext.
     intros k''. unfold s. rewrite run_view_norevert by assumption. reflexivity.
 Qed.
+
+
+(* ------------------------------------------------------------------ whole call trees *)
+
+Lemma compile_frame : forall d ok body,
+  compile d (CF ok body) =
+  let '(ops, d') := compile_list (S d) body in
+  if ok then (Snapshot :: ops, d') else (Snapshot :: ops ++ [RevertTo (Z.of_nat d - 1)], S d).
+Proof. reflexivity. Qed.
+
+Lemma compile_list_cons : forall d x r,
+  compile_list d (x :: r) =
+  let '(o1, d1) := compile d x in let '(o2, d2) := compile_list d1 r in (o1 ++ o2, d2).
+Proof. reflexivity. Qed.
+
+Lemma kept_frame : forall ok body, kept (CF ok body) = if ok then kept_list body else [].
+Proof. reflexivity. Qed.
+
+Lemma kept_list_cons : forall x r, kept_list (x :: r) = kept x ++ kept_list r.
+Proof. reflexivity. Qed.
+
+Lemma plain_frame : forall ok body, plain_tree (CF ok body) = plain_list body.
+Proof. reflexivity. Qed.
+
+Lemma plain_list_cons : forall x r, plain_list (x :: r) = plain_tree x && plain_list r.
+Proof. reflexivity. Qed.
+
+Lemma reverts_ge_mono : forall a b ops, (a <= b)%Z -> reverts_ge b ops -> reverts_ge a ops.
+Proof.
+  intros a b ops Hab H. unfold reverts_ge in *. eapply Forall_impl; [|exact H].
+  intros o Ho. destruct o; auto. lia.
+Qed.
+
+Lemma side_run_app : forall a b c, side_run (a ++ b) c = side_run b (side_run a c).
+Proof. intros. unfold side_run. apply fold_left_app. Qed.
+
+Lemma emitted_app : forall a b, emitted (a ++ b) = emitted a ++ emitted b.
+Proof.
+  induction a as [|o a IH]; intros b; [reflexivity|].
+  cbn [app emitted]. destruct o; rewrite ?IH; reflexivity.
+Qed.
+
+(* one plain operation: the stack keeps its shape; the view, the side state and the visible events move as stated *)
+Lemma step_plain : forall s o, is_plain o = true ->
+  depth (fst (step s o)) = depth s /\
+  (forall k, view (fst (step s o)) k = kv_step (view s) o k) /\
+  cur (fst (step s o)) = side_apply (cur s) o /\
+  events (fst (step s o)) = events s ++ emitted [o].
+Proof.
+  intros s o Hp.
+  assert (Hc : is_commit o = false) by (destruct o; try reflexivity; discriminate).
+  assert (Hr : is_revert o = false) by (destruct o; try reflexivity; discriminate).
+  split; [|split; [apply step_view_norevert; assumption|]].
+  - destruct o; try discriminate Hp; cbn [step]; try reflexivity;
+      destruct (side_step (cur s) _); reflexivity.
+  - destruct o; try discriminate Hp; cbn [step emitted].
+    all: try (unfold side_apply; destruct (side_step (cur s) _) eqn:E; cbn [fst set_cur cur]; rewrite ?app_nil_r; split; reflexivity).
+    + cbn [fst]. rewrite app_nil_r. split; reflexivity.
+    + cbn [fst]. rewrite app_nil_r. split; reflexivity.
+    + cbn [fst]. split; [reflexivity|]. unfold events, set_top_ev. cbn [top below orig_ev events_layers l_ev].
+      rewrite !app_assoc. reflexivity.
+Qed.
+
+(* static facts about the compiled sequence: no Commit inside, len(snapshots) never shrinks below the entry value,
+   and every RevertTo targets an id at or above the one of the frame around it *)
+Definition compile_static (t : citem) : Prop := forall d,
+  plain_tree t = true ->
+  no_commit (fst (compile d t)) /\ (d <= snd (compile d t))%nat /\ reverts_ge (Z.of_nat d - 1) (fst (compile d t)).
+
+Lemma compile_static_all : forall t, compile_static t.
+Proof.
+  fix IH 1. intros [o|ok body] d Hp.
+  - cbn [compile fst snd]. cbn [plain_tree] in Hp. split; [|split].
+    + constructor; [destruct o; try reflexivity; discriminate|constructor].
+    + lia.
+    + constructor; [destruct o; try exact I; discriminate|constructor].
+  - rewrite compile_frame. rewrite plain_frame in Hp.
+    assert (HL : forall l d, plain_list l = true ->
+              no_commit (fst (compile_list d l)) /\ (d <= snd (compile_list d l))%nat /\
+              reverts_ge (Z.of_nat d - 1) (fst (compile_list d l))).
+    { clear d Hp. induction l as [|x r IHr]; intros d Hp.
+      - cbn. repeat split; [constructor|lia|constructor].
+      - rewrite plain_list_cons in Hp. apply andb_true_iff in Hp. destruct Hp as [Hx Hr].
+        rewrite compile_list_cons.
+        pose proof (IH x d Hx) as (A1 & A2 & A3). destruct (compile d x) as [o1 d1]. cbn [fst snd] in *.
+        pose proof (IHr d1 Hr) as (B1 & B2 & B3). destruct (compile_list d1 r) as [o2 d2]. cbn [fst snd] in *.
+        split; [apply Forall_app; split; assumption|]. split; [lia|].
+        apply Forall_app. split; [exact A3|]. eapply reverts_ge_mono; [|exact B3]. lia. }
+    pose proof (HL body (S d) Hp) as (A1 & A2 & A3). destruct (compile_list (S d) body) as [ops d'].
+    cbn [fst snd] in *. destruct ok; cbn [fst snd].
+    + split; [constructor; [reflexivity|exact A1]|]. split; [lia|].
+      constructor; [exact I|]. eapply reverts_ge_mono; [|exact A3]. lia.
+    + split; [constructor; [reflexivity|]; apply Forall_app; split; [exact A1|constructor; [reflexivity|constructor]]|].
+      split; [lia|].
+      constructor; [exact I|]. apply Forall_app. split.
+      * eapply reverts_ge_mono; [|exact A3]. lia.
+      * constructor; [cbn; lia|constructor].
+Qed.
+
+Lemma compile_effect : forall t d, plain_tree t = true ->
+  forall s, wf s -> depth s = d ->
+  depth (run s (fst (compile d t))) = snd (compile d t) /\
+  (forall k, view (run s (fst (compile d t))) k = apply_writes (kept t) (view s) k) /\
+  cur (run s (fst (compile d t))) = side_run (kept t) (cur s) /\
+  events (run s (fst (compile d t))) = events s ++ emitted (kept t).
+Proof.
+  fix IH 1. intros [o|ok body] d Hp s Hwf Hd.
+  - cbn [compile fst snd kept]. cbn [plain_tree] in Hp. rewrite run_cons. cbn [run fold_left].
+    destruct (step_plain s o Hp) as (A & B & C & D).
+    split; [congruence|]. split; [exact B|]. split; [exact C|exact D].
+  - rewrite plain_frame in Hp.
+    assert (HL : forall l d, plain_list l = true -> forall s, wf s -> depth s = d ->
+              depth (run s (fst (compile_list d l))) = snd (compile_list d l) /\
+              (forall k, view (run s (fst (compile_list d l))) k = apply_writes (kept_list l) (view s) k) /\
+              cur (run s (fst (compile_list d l))) = side_run (kept_list l) (cur s) /\
+              events (run s (fst (compile_list d l))) = events s ++ emitted (kept_list l)).
+    { clear d Hp s Hwf Hd. induction l as [|x r IHr]; intros d Hp s Hwf Hd.
+      - cbn. rewrite app_nil_r. repeat split; assumption.
+      - rewrite plain_list_cons in Hp. apply andb_true_iff in Hp. destruct Hp as [Hx Hr].
+        rewrite compile_list_cons, kept_list_cons.
+        pose proof (IH x d Hx s Hwf Hd) as (A1 & A2 & A3 & A4). destruct (compile d x) as [o1 d1]. cbn [fst snd] in *.
+        pose proof (IHr d1 Hr (run s o1) (wf_run _ _ Hwf) A1) as (B1 & B2 & B3 & B4).
+        destruct (compile_list d1 r) as [o2 d2]. cbn [fst snd] in *.
+        rewrite run_app. split; [exact B1|]. split; [|split].
+        + intros k. rewrite B2, apply_writes_app. apply apply_writes_ext. exact A2.
+        + rewrite B3, A3, side_run_app. reflexivity.
+        + rewrite B4, A4, emitted_app, app_assoc. reflexivity. }
+    rewrite compile_frame, kept_frame.
+    set (s1 := fst (step s Snapshot)).
+    assert (Hwf1 : wf s1) by apply wf_step, Hwf.
+    assert (Hd1 : depth s1 = S d) by (unfold s1; cbn [step fst]; unfold depth in *; cbn [below length]; lia).
+    destruct (snapshot_keeps s) as (V & C & E & _). fold s1 in V, C, E.
+    pose proof (HL body (S d) Hp s1 Hwf1 Hd1) as (A1 & A2 & A3 & A4).
+    pose proof (compile_static_all (CF true body) d) as Hst. rewrite plain_frame in Hst. specialize (Hst Hp).
+    rewrite compile_frame in Hst.
+    destruct (compile_list (S d) body) as [ops d'] eqn:Ec. cbn [fst snd] in *.
+    destruct ok; cbn [fst snd].
+    + rewrite run_cons. fold s1. split; [exact A1|]. split; [|split].
+      * intros k. rewrite A2. apply apply_writes_ext. exact V.
+      * rewrite A3, C. reflexivity.
+      * rewrite A4, E. reflexivity.
+    + destruct Hst as (Hnc & _ & Hrg). pose proof (Forall_inv_tail Hnc) as Hnc'. pose proof (Forall_inv_tail Hrg) as Hrg'.
+      assert (Hid : next_id s = (Z.of_nat d - 1)%Z) by (unfold next_id; rewrite Hd; reflexivity).
+      rewrite <- Hid in *.
+      destruct (revert_exact_getters s ops Hwf Hnc' Hrg') as (_ & B2 & B3 & B4 & _ & B6).
+      rewrite run_cons. fold s1. rewrite run_app. cbn [run fold_left].
+      cbn [apply_writes fold_left side_run emitted]. rewrite app_nil_r.
+      fold s1 in B2, B3, B4, B6. split; [rewrite B6, Hd; reflexivity|]. split; [exact B2|]. split; [exact B3|exact B4].
+Qed.
+
+Lemma compile_list_static : forall l d, plain_list l = true ->
+  no_commit (fst (compile_list d l)) /\ (d <= snd (compile_list d l))%nat /\
+  reverts_ge (Z.of_nat d - 1) (fst (compile_list d l)).
+Proof.
+  induction l as [|x r IHr]; intros d Hp.
+  - cbn. repeat split; [constructor|lia|constructor].
+  - rewrite plain_list_cons in Hp. apply andb_true_iff in Hp. destruct Hp as [Hx Hr].
+    rewrite compile_list_cons.
+    pose proof (compile_static_all x d Hx) as (A1 & A2 & A3). destruct (compile d x) as [o1 d1]. cbn [fst snd] in *.
+    pose proof (IHr d1 Hr) as (B1 & B2 & B3). destruct (compile_list d1 r) as [o2 d2]. cbn [fst snd] in *.
+    split; [apply Forall_app; split; assumption|]. split; [lia|].
+    apply Forall_app. split; [exact A3|]. eapply reverts_ge_mono; [|exact B3]. lia.
+Qed.
+
+Lemma compile_list_effect : forall l d, plain_list l = true -> forall s, wf s -> depth s = d ->
+  depth (run s (fst (compile_list d l))) = snd (compile_list d l) /\
+  (forall k, view (run s (fst (compile_list d l))) k = apply_writes (kept_list l) (view s) k) /\
+  cur (run s (fst (compile_list d l))) = side_run (kept_list l) (cur s) /\
+  events (run s (fst (compile_list d l))) = events s ++ emitted (kept_list l).
+Proof.
+  induction l as [|x r IHr]; intros d Hp s Hwf Hd.
+  - cbn. rewrite app_nil_r. repeat split; assumption.
+  - rewrite plain_list_cons in Hp. apply andb_true_iff in Hp. destruct Hp as [Hx Hr].
+    rewrite compile_list_cons, kept_list_cons.
+    pose proof (compile_effect x d Hx s Hwf Hd) as (A1 & A2 & A3 & A4). destruct (compile d x) as [o1 d1]. cbn [fst snd] in *.
+    pose proof (IHr d1 Hr (run s o1) (wf_run _ _ Hwf) A1) as (B1 & B2 & B3 & B4).
+    destruct (compile_list d1 r) as [o2 d2]. cbn [fst snd] in *.
+    rewrite run_app. split; [exact B1|]. split; [|split].
+    + intros k. rewrite B2, apply_writes_app. apply apply_writes_ext. exact A2.
+    + rewrite B3, A3, side_run_app. reflexivity.
+    + rewrite B4, A4, emitted_app, app_assoc. reflexivity.
+Qed.
+
+(* THE TRANSACTION: any call tree, run on any reachable StateDB, then committed.  What reaches the original
+   context is exactly the writes of the operations whose frame and all enclosing frames completed, in program order
+   (plus the destroy loop of the commit); every effect made inside a frame that failed has disappeared, at any depth,
+   for all modules alike; logs, refund, access list, transient storage, self-destruct marks and events likewise. *)
+Lemma call_tree_commit : forall s items dl, wf s -> committed s = false -> plain_list items = true ->
+  let ops := fst (compile_list (depth s) items) in
+  let r := step (run s ops) (Commit dl) in
+  snd r = OutOk /\
+  (forall k, orig (fst r) k = kv_over dl (apply_writes (kept_list items) (view s)) k) /\
+  cur (fst r) = side_run (kept_list items) (cur s) /\
+  orig_ev (fst r) = events s ++ emitted (kept_list items).
+Proof.
+  intros s items dl Hwf Hc Hp ops r.
+  destruct (compile_list_effect items (depth s) Hp s Hwf eq_refl) as (_ & V & C & E). fold ops in V, C, E.
+  destruct (compile_list_static items (depth s) Hp) as (Hnc & _ & _). fold ops in Hnc.
+  destruct (discard_pure ops s Hnc) as (_ & _ & Hc').
+  destruct (commit_view (run s ops) dl) as (R1 & _ & R3 & _ & R5 & R6); [congruence|].
+  fold r in R1, R3, R5, R6.
+  split; [exact R1|]. split; [|split].
+  - intros k. rewrite R3. apply kv_over_ext. exact V.
+  - rewrite R6. exact C.
+  - rewrite R5. exact E.
+Qed.
+
+(* the same tree with every failing frame cut out (Model/CacheStack.v prune: the "survivors only" transaction of the
+   driver) commits the same outcome *)
+Lemma kept_list_app : forall a b, kept_list (a ++ b) = kept_list a ++ kept_list b.
+Proof. induction a as [|x a IH]; intros b; [reflexivity|]. cbn [app]. rewrite !kept_list_cons, IH, app_assoc. reflexivity. Qed.
+
+Lemma plain_list_app : forall a b, plain_list (a ++ b) = plain_list a && plain_list b.
+Proof. induction a as [|x a IH]; intros b; [reflexivity|]. cbn [app]. rewrite !plain_list_cons, IH, andb_assoc. reflexivity. Qed.
+
+Lemma prune_kept : forall t, plain_tree t = true ->
+  kept_list (prune t) = kept t /\ plain_list (prune t) = true.
+Proof.
+  fix IH 1. intros [o|ok body] Hp.
+  - cbn [plain_tree] in Hp. cbn. rewrite Hp. split; reflexivity.
+  - rewrite plain_frame in Hp. rewrite kept_frame.
+    assert (HL : forall l, plain_list l = true -> kept_list (prune_list l) = kept_list l /\ plain_list (prune_list l) = true).
+    { induction l as [|x r IHr]; intros Hl; [split; reflexivity|].
+      rewrite plain_list_cons in Hl. apply andb_true_iff in Hl. destruct Hl as [Hx Hr].
+      change (prune_list (x :: r)) with (prune x ++ prune_list r).
+      destruct (IH x Hx) as [K1 P1]. destruct (IHr Hr) as [K2 P2].
+      rewrite kept_list_app, plain_list_app, kept_list_cons, K1, K2, P1, P2. split; reflexivity. }
+    destruct ok.
+    + change (prune (CF true body)) with [CF true (prune_list body)].
+      destruct (HL body Hp) as [K P]. cbn [kept_list plain_list]. rewrite kept_frame, plain_frame, app_nil_r, K, P.
+      split; reflexivity.
+    + split; reflexivity.
+Qed.
+
+Lemma prune_list_kept : forall l, plain_list l = true ->
+  kept_list (prune_list l) = kept_list l /\ plain_list (prune_list l) = true.
+Proof.
+  induction l as [|x r IHr]; intros Hl; [split; reflexivity|].
+  rewrite plain_list_cons in Hl. apply andb_true_iff in Hl. destruct Hl as [Hx Hr].
+  change (prune_list (x :: r)) with (prune x ++ prune_list r).
+  destruct (prune_kept x Hx) as [K1 P1]. destruct (IHr Hr) as [K2 P2].
+  rewrite kept_list_app, plain_list_app, kept_list_cons, K1, K2, P1, P2. split; reflexivity.
+Qed.
+
+Lemma survivors_only_twin : forall s items dl, wf s -> committed s = false -> plain_list items = true ->
+  let ra := step (run s (fst (compile_list (depth s) items))) (Commit dl) in
+  let rb := step (run s (fst (compile_list (depth s) (prune_list items)))) (Commit dl) in
+  (forall k, orig (fst ra) k = orig (fst rb) k) /\ cur (fst ra) = cur (fst rb) /\ orig_ev (fst ra) = orig_ev (fst rb).
+Proof.
+  intros s items dl Hwf Hc Hp ra rb.
+  destruct (prune_list_kept items Hp) as [K P].
+  destruct (call_tree_commit s items dl Hwf Hc Hp) as (_ & A2 & A3 & A4).
+  destruct (call_tree_commit s (prune_list items) dl Hwf Hc P) as (_ & B2 & B3 & B4).
+  fold ra in A2, A3, A4. fold rb in B2, B3, B4. rewrite K in B2, B3, B4.
+  split; [intros k; rewrite A2, B2; reflexivity|]. split; congruence.
+Qed.
